@@ -152,6 +152,13 @@ void mtSleep(u32 ms)
 
 #endif // OS
 
+#if defined(BEE2_VERIF) && defined(BEE2_VERIF_YIELD)
+void (*bee2_verif_yield)(int) = 0;
+#define VERIF_YIELD(n) do { if (bee2_verif_yield) bee2_verif_yield(n); } while (0)
+#else
+#define VERIF_YIELD(n) ((void)0)
+#endif
+
 bool_t mtCallOnce(size_t* once, void (*fn)())
 {
 	size_t t;
@@ -161,6 +168,7 @@ bool_t mtCallOnce(size_t* once, void (*fn)())
 		if ((t = mtAtomicCmpSwap(once, 0, SIZE_MAX)) == 0)
 		{
 			// ... да, обработать захват
+			VERIF_YIELD(1);
 			fn(), *once = 1;
 			break;
 		}
